@@ -6,6 +6,7 @@ import NPModel.Refine.FrameLemmas
 import NPModel.Refine.Samples
 import NPModel.Refine.ReduceRows
 import NPModel.Refine.SamplesFrame
+import NPModel.Refine.CountNested
 namespace NP.C10
 open NP
 variable {α : Type}
@@ -99,5 +100,17 @@ example : ∀ col ∈ [((none : Option String), "x"), (some "n", "a")], reduceCo
     intro s hs
     simp only [Samples.qcol, List.mem_cons, List.not_mem_nil, or_false] at hs
     rcases hs with rfl | rfl <;> (unfold PStruct.noHidden; decide)
+
+/-- **`count_nested` reports each row's own number of records** (without `by`): on a cleanly stored column in any
+    chunking the counts are, row by row, the numbers of records of the element view — 0 for a missing row, 0 for an
+    empty row, one count per input row in row order. -/
+theorem count_nested_counts_each_rows_records (c : PCol α) (h : c.Clean) (hch : c.chunks ≠ []) :
+    NArr.countRecords c = .ok (c.rows.map Row.len) ∧ (c.rows.map Row.len).length = c.len := by
+  refine ⟨countRecords_refines c h hch, ?_⟩
+  rw [List.length_map, PCol.rows_length]
+
+/-- non-vacuity: evaluated on the two-chunk sliced sample column -/
+example : NArr.countRecords Samples.qcol = .ok (Samples.qcol.rows.map Row.len) := by decide
+
 
 end NP.C10
